@@ -90,6 +90,8 @@ def draw_config(rng, wl, tier):
         ov = rng.randint(1, 16)
         cfg["override"] = ov
         cfg["num_procs"] = -rng.randint(0, ov)
+    # history fault: an earlier analysis of the same kind on other data / other flags in the same process
+    cfg["decoy"] = rng.random() < 0.2
     if wl.get("stochastic"):
         cfg["np_seed"] = 777  # conditional claim: pinned global RNG state
     swarm = rng.random()
@@ -136,13 +138,41 @@ def _cnls_prefix_ok(ref, out):
         return f"cannot compare ({type(e).__name__}: {e})"
 
 
+def _decoy(wl):
+    """Same entry point and options on other data (and, for fits, other fixed flags): whatever it leaves
+    behind in the process must not reach the next analysis."""
+    import re
+
+    w = dict(wl)
+    w["data"] = dict(wl["data"])
+    w["data"]["noise_seed"] = wl["data"].get("noise_seed", 0) + 1
+    w["data"]["noise_pct"] = max(0.2, wl["data"].get("noise_pct", 0.0))
+    w["data"]["mask"] = []
+    if wl["data"]["n"] > 9:
+        w["data"]["n"] = wl["data"]["n"] - 1
+    if wl["entry"] == "fit_circuit":
+        w["circuit"] = re.sub(r"=([-+0-9.eE]+)", r"=\1F", wl["circuit"], count=1)
+        w["kwargs"] = dict(wl["kwargs"])
+        w["kwargs"]["method"] = "leastsq"
+        w["kwargs"]["weight"] = "boukamp"
+    return w
+
+
 def evaluate(wl, cfg, dec, ctx):
     kind = wl.get("kind")
     ref = ctx.reference(fail=cfg.get("fail") or ())
     if ref.status == "skipped":
         return ref, []
     n_pf = len(ctx.cache.purity_failures)
+    decoyed = False
+    if cfg.get("decoy") and ctx.extra.get("decoys", 0) < 2 and kind in ("fit", "zhit", "kk_cnls", "bht"):
+        ctx.extra["decoys"] = ctx.extra.get("decoys", 0) + 1
+        run_entry(_decoy(wl), {"num_procs": 1, "callbacks": 0, "np_seed": 4321})
+        decoyed = True
     out = run_entry(wl, cfg, dec, ctx.cache)
+    if decoyed and out.status != "skipped":
+        out.probes = dict(out.probes or {})
+        out.probes["decoy_analysis_before"] = 1
     if out.status == "skipped":
         return out, []
     viols = []
